@@ -23,6 +23,18 @@ EXTRA = {
  "C08d-regcache-fill-under-rlock": ["C11"], "C14d-lexer-shared-scratch": ["C11"], "C07d-calls-leak-on-depth-error": ["C08"], "C08d-calls-leak-on-panic": ["C07"],
  "C06d-scope-store-recycled": ["C07"], "C07d-scope-store-recycled": ["C06"], "C12d-fold-across-ternary-join": ["C03"], "C03d-jump-fold-reads-previous-byte": ["C02"],
  "C02d-dead-else-peeks-three-bytes": ["C03"], "C13d-prepare-keeps-truncated-tree": ["C19"], "C04d-shared-map-visited-set": ["C19"], "C19d-shared-map-visited-set": ["C04"],
+ # round 6
+ "C01f-fold-accepts-65536": ["C03"], "C01f-unwind-skips-depth-zero": ["C07", "C06"], "C01f-match-fast-path-no-trim": ["C02"], "C17f-array-inspect-leading-empty": ["C16"],
+ "C19f-float-hashkey-bits-nan": ["C16"], "C19f-failed-regexp-cached-standin": ["C17"], "C04f-reflect-depth-leaks-past-limit": ["C07"], "C04f-cycle-mark-deleted-by-inner": ["C08"],
+ "C04f-string-hashkey-by-rune": ["C16"], "C15f-constant-limit-65537": ["C18"], "C15f-unwind-closes-half": ["C06", "C07"], "C15f-identifier-truncated-at-64": ["C14"],
+ "C07f-calls-reset-on-depth-error": ["C08"], "C07f-cli-timeout-shared-by-files": ["C20"], "C16f-range-end-overflows": ["C01"], "C16f-unwind-closes-half": ["C06"],
+ "C16f-string-hashkey-shared-hasher": ["C11"], "C09f-integer-power-minint-loop": ["C01"], "C09f-recovered-panic-machine-without-context": ["C07"], "C09f-regcache-lock-leak": ["C11"],
+ "C08f-refused-call-stays-counted": ["C07"], "C08f-run-returns-holding-mutex": ["C20"], "C08f-empty-array-literal-string-panics": ["C13"], "C02f-function-size-check-uses-main": ["C18"],
+ "C02f-arity-error-leaves-callee-code": ["C07"], "C02f-match-fast-path-no-trim": ["C01"], "C06f-function-size-check-uses-main": ["C18"], "C06f-unwind-closes-half": ["C07"],
+ "C06f-set-global-fast-path": ["C15"], "C14f-integer-literal-2-63": ["C01"], "C14f-float-literal-range-error-ignored": ["C13"], "C05f-fold-accepts-65536": ["C03"],
+ "C05f-unwind-depth-read-at-exit": ["C07", "C06"], "C13f-size-checked-on-node-entry": ["C18"], "C20f-fold-accepts-65536": ["C03"], "C20f-arity-error-leaves-callee-code": ["C07", "C06"],
+ "C12f-fold-keeps-stale-constants-out-of-range": ["C03"], "C12f-divzero-fold-keeps-stale-constants": ["C03"], "C12f-slash-after-lsquare-table": ["C14"],
+ "C03f-function-optimizer-error-replaces-main": ["C19"], "C03f-float-literal-string-by-value": ["C19"], "C18f-function-size-check-uses-main": ["C02"], "C18f-sqrt-fold-abandoned-keeps-constants": ["C03"],
  # round 5
  "C19e-fields-kept-for-same-pointer": ["C07", "C04"], "C19e-float-hashkey-memo-copied": ["C16"], "C17e-sorted-array-keeps-cached-text": [], "C10e-zone-argument-reads-files": ["C17"],
  "C04e-convert-mark-leaks-on-panic": ["C07"], "C04e-fields-kept-after-runaway-recursion": ["C07"], "C05e-fields-kept-for-nil-object": ["C07", "C04"], "C05e-placeholders-dropped-second-round": ["C03"],
@@ -33,15 +45,26 @@ EXTRA = {
  "C03e-jump-fold-reads-operand-byte-12-13": ["C05"], "C03e-field-cache-kept-when-main-has-no-lookup": ["C07"], "C03e-old-header-over-compacted-code": ["C18"], "C12e-slash-after-rsquare-table": ["C14"], "C12e-ternary-flag-sticks-after-function": ["C06"],
  "C06d-user-function-before-builtin": ["C20"], "C18d-deadcode-past-jump": ["C03"], "C08c-calls-leak-on-error": ["C07"], "C19c-integer-key-order-cycle": ["C16"], "C06b-stale-lastop": ["C18"], "C07b-fields-survive-nil-object": ["C04"], "C04b-shared-map-converted-once": ["C07"],
 }
-pref = sys.argv[1] if len(sys.argv) > 1 else ""
+# usage: seedmatrix.py [id-prefix] [--shard i/n] [--table-only]
+args = [a for a in sys.argv[1:] if not a.startswith("--")]
+pref = args[0] if args else ""
+shard_i, shard_n = 0, 1
+table_only = "--table-only" in sys.argv
+for k, a in enumerate(sys.argv):
+    if a == "--shard":
+        shard_i, shard_n = [int(x) for x in sys.argv[k + 1].split("/")]
+args = [a for a in args if "/" not in a]
+pref = args[0] if args else ""
 rows = []
+count = 0
 for sid in sorted(os.listdir(os.path.join(ROOT, "seeded"))):
     d = os.path.join(ROOT, "seeded", sid)
     mf = os.path.join(d, "meta.json")
     if not os.path.isfile(mf):
         continue
     meta = json.load(open(mf))
-    if sid.startswith(pref):
+    count += 1
+    if sid.startswith(pref) and not table_only and count % shard_n == shard_i:
         props = [meta["property"]] + EXTRA.get(sid, [])
         res = {}
         for p in props:
